@@ -311,6 +311,9 @@ class C02(Prop):
                                  ('CoseEncryptBuilder', '(add_recipient %s)' % rcn), ('CoseSignBuilder', '(add_signature %s)' % sgf), ('HeaderBuilder', '(add_counter_signature %s)' % sgf),
                                  ('CoseRecipientBuilder', '(add_recipient (rcp (ph - %s) %s b (rcps))) (add_recipient %s)' % (E, E, rcf)), ('CoseSignBuilder', '(add_signature (sig (ph - %s) %s b)) (add_signature %s)' % (E, E, sgf))):
                     ops.append(mk('build %s %s' % (bld, add), planted=p2.hex(), k='build-keep', plain=True))
+                # … and to every setter that takes a whole structure (informed round 12: the KDF context's supp_pub_info rebuilt its argument)
+                ops.append(mk('build CoseKdfContextBuilder (supp_pub_info (supp i128 %s -))' % self.ph_form(p2), planted=p2.hex(), k='build-keep', plain=True))
+                ops.append(mk('build CoseKdfContextBuilder (algorithm A1) (supp_pub_info (supp i128 %s b01)) (add_supp_priv_info b02)' % self.ph_form(p2), planted=p2.hex(), k='build-keep', plain=True))
             elif c < 0.93:
                 # stored bytes at every nesting level down to the deepest permitted one (16): each protected byte string on the way holds
                 # a map the crate would not emit itself, the innermost signature holds `p`; everything outside protected byte strings is
